@@ -110,6 +110,39 @@ def closure_norestart(s):
                 stored_version=s.get("stored_version", ""))
 
 
+def validate_chunks(sd, trace, timeout, maxlines=1200000, par=3):
+    """Trace validation in pieces: the trace is cut at trace boundaries (reset events) into pieces of <= maxlines lines, each piece is
+    replayed by its own TLC process through PeerSwapTrace (own copy of the spec directory, up to `par` at a time). Returns (lines, violations)."""
+    pieces, cur, n = [], [], 0
+    with open(trace) as f:
+        for ln in f:
+            if '"ev":"reset"' in ln and n >= maxlines:
+                pieces.append(cur)
+                cur, n = [], 0
+            cur.append(ln)
+            n += 1
+    if cur:
+        pieces.append(cur)
+
+    def one(i):
+        d = "%s-piece%d" % (sd, i)
+        shutil.copytree(sd, d, ignore=shutil.ignore_patterns("v", "trace.ndjson", "states", "meta-*"))
+        os.makedirs(os.path.join(d, "v"))
+        tp = os.path.join(d, "trace.ndjson")
+        with open(tp, "w") as f:
+            f.writelines(pieces[i])
+        v = vp.validate_trace("PeerSwapTrace", "PeerSwapTrace.cfg", d, tp, timeout=timeout, heap="8g" if len(pieces) == 1 else "6g")
+        viol = []
+        for p in glob.glob(os.path.join(d, "v", "*.json")):
+            j = json.load(open(p))
+            viol += [dict(t=j["t"], seq=x["seq"], sig=x["sig"]) for x in j["viol"]]
+        shutil.rmtree(d, ignore_errors=True)
+        return v["n"], viol
+    with ThreadPoolExecutor(par) as ex:
+        res = list(ex.map(one, range(len(pieces))))
+    return sum(r[0] for r in res), [x for r in res for x in r[1]]
+
+
 def run_all(tier):
     """Shared run for all properties of this engine; cached per (tree, spec, harness, tier, seed)."""
     key = "%s-%s-%d%s" % (tree_hash(), tier, vp.seed(), ("-only-" + hashlib.sha256(os.environ["VERIF_ONLY"].encode()).hexdigest()[:8]) if os.environ.get("VERIF_ONLY") else "")
@@ -129,7 +162,7 @@ def run_all(tier):
         sys.path.insert(0, os.path.join(vp.VERIF, "tools"))
         import gen_tables
         gen_tables.gen(json.load(open(tj)), os.path.join(sd, "FsmTables.tla"))
-        tmo = 3000 if tier == "thorough" else 900
+        tmo = 7200 if tier == "thorough" else 1200
         res, scheds = export_all(sd, wd, tier, tmo, os.environ.get("VERIF_ONLY", "").split(",") if os.environ.get("VERIF_ONLY") else None)
         results = dict(all=dict(generated=res["generated"], distinct=res["distinct"], depth=res["depth"], wall=round(res["wall"], 1),
                                 schedules=len(scheds), configurations=res["ncfg"]))
@@ -167,17 +200,13 @@ def run_all(tier):
         trace = os.path.join(wd, "trace.ndjson")
         nodes = tempfile.mkdtemp(prefix="verif-nodes-", dir="/dev/shm" if os.path.isdir("/dev/shm") else None)
         t1 = time.time()
-        vp.run([binp, "-schedules", sp, "-out", trace, "-workers", str(vp.NCPU), "-tmp", nodes], timeout=3000)
+        vp.run([binp, "-schedules", sp, "-out", trace, "-workers", str(vp.NCPU), "-tmp", nodes], timeout=tmo)
         shutil.rmtree(nodes, ignore_errors=True)
         vp.log("  code: %d schedules run in %.1fs" % (len(scheds), time.time() - t1))
         t1 = time.time()
-        os.makedirs(os.path.join(sd, "v"), exist_ok=True)
-        v = vp.validate_trace("PeerSwapTrace", "PeerSwapTrace.cfg", sd, trace, timeout=3000)
-        v["viol"] = []
-        vp.log("  trace validation: %.1fs" % (time.time() - t1))
-        for p in glob.glob(os.path.join(sd, "v", "*.json")):
-            j = json.load(open(p))
-            v["viol"] += [dict(t=j["t"], seq=x["seq"], sig=x["sig"]) for x in j["viol"]]
+        v = {}
+        v["n"], v["viol"] = validate_chunks(sd, trace, tmo)
+        vp.log("  trace validation: %d events, %.1fs" % (v["n"], time.time() - t1))
         # C22: the maker schedules once more with REAL-TIME retransmission (interval 2 ms, 12 ms between environment steps)
         rsched = [dict(s, cfg=dict(s["cfg"], retransmit=True)) for s in scheds[:nmodel]
                   if s["cfg"]["chain"] == "btc" and ("in_sender" in s["name"] or "out_receiver" in s["name"]) and "crash" not in s["name"] and len(s["steps"]) >= 3][:2500 if tier == "quick" else 8000]
@@ -187,15 +216,11 @@ def run_all(tier):
                 f.write(json.dumps(s) + "\n")
         rtrace = os.path.join(wd, "rtrace.ndjson")
         nodes = tempfile.mkdtemp(prefix="verif-nodes-", dir="/dev/shm" if os.path.isdir("/dev/shm") else None)
-        vp.run([binp, "-schedules", rp, "-out", rtrace, "-workers", str(vp.NCPU), "-tmp", nodes, "-retransmit", "25ms"], timeout=3000)
+        vp.run([binp, "-schedules", rp, "-out", rtrace, "-workers", str(vp.NCPU), "-tmp", nodes, "-retransmit", "25ms"], timeout=tmo)
         shutil.rmtree(nodes, ignore_errors=True)
-        shutil.rmtree(os.path.join(sd, "v"), ignore_errors=True)
-        os.makedirs(os.path.join(sd, "v"))
-        rv = vp.validate_trace("PeerSwapTrace", "PeerSwapTrace.cfg", sd, rtrace, timeout=3000)
-        rviol = []
-        for p in glob.glob(os.path.join(sd, "v", "*.json")):
-            j = json.load(open(p))
-            rviol += [dict(t=j["t"], seq=x["seq"], sig=x["sig"]) for x in j["viol"] if x["sig"].startswith("C22|")]
+        rv = {}
+        rv["n"], rall = validate_chunks(sd, rtrace, tmo)
+        rviol = [x for x in rall if x["sig"].startswith("C22|")]
         vp.log("  retransmission run + validation: %d schedules" % len(rsched))
         nretx = sum(1 for ln in open(rtrace) if '"ev":"send"' in ln and '"nth":1,' not in ln)
         # per-trace comparison model <-> code (strict conformance, informational)
